@@ -284,18 +284,27 @@ func BuildOn(reg modeling.Registrar, c *Cfg, makeReq ReqMaker) *World {
 	conn := directconnection.MakeBuilder().WithRegistrar(w.Reg).Build("Conn")
 	ps := w.pageSize()
 
-	w.PT = ptb.Build("PageTable")
+	// With DefaultPT (real simulations only) no page table is injected: the MMU
+	// builds its own, which has to be part of the simulation like an injected one.
+	ownPT := c.DefaultPT && reg != nil
 
-	for _, p := range c.Pages {
-		pg := vm.Page{PID: vm.PID(p.PID), VAddr: p.VPage * ps, PAddr: p.PPage * ps, PageSize: ps, Valid: !p.Invalid, DeviceID: p.Device, Unified: true}
-		w.PT.Insert(pg)
+	insertPages := func() {
+		for _, p := range c.Pages {
+			pg := vm.Page{PID: vm.PID(p.PID), VAddr: p.VPage * ps, PAddr: p.PPage * ps, PageSize: ps, Valid: !p.Invalid, DeviceID: p.Device, Unified: true}
+			w.PT.Insert(pg)
 
-		if p.Moved {
-			pg.PAddr = p.MovedTo * ps
-			w.PT.Update(pg)
+			if p.Moved {
+				pg.PAddr = p.MovedTo * ps
+				w.PT.Update(pg)
+			}
+
+			w.table[[2]uint64{uint64(p.PID), p.VPage}] = pg
 		}
+	}
 
-		w.table[[2]uint64{uint64(p.PID), p.VPage}] = pg
+	if !ownPT {
+		w.PT = ptb.Build("PageTable")
+		insertPages()
 	}
 
 	monitor := func(name string, top messaging.Port) {
@@ -311,7 +320,23 @@ func BuildOn(reg modeling.Registrar, c *Cfg, makeReq ReqMaker) *World {
 	ms.Latency = c.MMULatency
 	ms.MaxRequestsInFlight = c.MMUInflight
 	ms.AutoPageAllocation = c.AutoAlloc
-	m := mmu.MakeBuilder().WithRegistrar(w.Reg).WithSpec(ms).WithResources(mmu.Resources{PageTable: w.PT}).Build("MMU")
+	var mmuPT vm.PageTable = w.PT
+	if ownPT {
+		mmuPT = nil
+	}
+
+	if c.PlainPT && reg == nil {
+		mmuPT = plainPT{w.PT}
+		w.Faults["page-table-of-foreign-type"]++
+	}
+
+	m := mmu.MakeBuilder().WithRegistrar(w.Reg).WithSpec(ms).WithResources(mmu.Resources{PageTable: mmuPT}).Build("MMU")
+	if ownPT {
+		w.PT = m.Resources().PageTable
+		insertPages()
+		w.Faults["mmu-builds-its-own-page-table"]++
+	}
+
 	below := w.port(m, "Top", c.MMUPortBuf)
 	w.Ctrl["MMU"] = w.port(m, "Control", 4)
 	conn.PlugIn(below)
@@ -570,3 +595,13 @@ func (w *World) laterWriter(ri, k int, op VOp, i int) bool {
 }
 
 var _ = memcontrolprotocol.CmdPause
+
+// plainPT is a page table of a type of the user's own: it implements vm.PageTable
+// (by forwarding to the stock table) and nothing beyond it.
+type plainPT struct{ in vm.PageTable }
+
+func (p plainPT) Insert(page vm.Page)                        { p.in.Insert(page) }
+func (p plainPT) Remove(pid vm.PID, vAddr uint64)            { p.in.Remove(pid, vAddr) }
+func (p plainPT) Find(pid vm.PID, a uint64) (vm.Page, bool)  { return p.in.Find(pid, a) }
+func (p plainPT) Update(page vm.Page)                        { p.in.Update(page) }
+func (p plainPT) ReverseLookup(pAddr uint64) (vm.Page, bool) { return p.in.ReverseLookup(pAddr) }
